@@ -28,6 +28,7 @@ theorem fact_I : ∀ r ∈ rules, r.rhs = "INCDEC" → r.lhs.head? = some "PUSH"
 def guardIdx : Gen.Guard → Nat
   | .eqf i _ j _ => max i j
   | .eqc i _ _ => i
+  | .nec i _ _ => i
 /-- guards look only inside the window -/
 theorem fact_G : ∀ r ∈ rules, ∀ g ∈ r.guards, guardIdx g < r.lhs.length := by decide
 
@@ -62,6 +63,10 @@ theorem fires_congr {r : Gen.Rule} (hr : r ∈ rules) {l l' : List Instr}
       simp only [guardOk]
       rw [getElem?_take_eq h (by omega : i < r.lhs.length), getElem?_take_eq h (by omega : j < r.lhs.length)]
     | eqc i f c =>
+      simp only [guardIdx] at hi
+      simp only [guardOk]
+      rw [getElem?_take_eq h hi]
+    | nec i f c =>
       simp only [guardIdx] at hi
       simp only [guardOk]
       rw [getElem?_take_eq h hi]
